@@ -327,6 +327,6 @@ pub fn run(env: &mut Env) {
         ((-span / step)..=(span / step)).map(move |k| TsCase { ts: centre.saturating_add(k * step) })
     });
     let t = env.thorough();
-    env.run_random::<Timestamp>(if t { 20_000_000 } else { 1_000_000 });
-    env.run_random::<Order>(if t { 20_000_000 } else { 1_000_000 });
+    env.run_random::<Timestamp>(if t { 20_000_000 } else { 3_000_000 });
+    env.run_random::<Order>(if t { 20_000_000 } else { 3_000_000 });
 }
